@@ -4,7 +4,7 @@ Kani: recording hasher; rec(a)==rec(b) <=> key(a)==key(b)."""
 from .emit import Unit, hdr, conj, dedup, trait_of
 
 HV = {"u8": "hv_u8", "u16": "hv_u16", "u32": "hv_u32", "bool": "hv_bool", "usize": "hv_usize", "isize": "hv_isize",
-      "crate::m::K": "hv_k"}
+      "crate::m::K": "hv_k", "crate::m::Adv": "hv_adv"}
 
 
 def hashed(v):
